@@ -80,7 +80,16 @@ class Check:
         self.repo = Repo(self.args.repo)
         with open(os.path.join(VERIF, "known_findings.json")) as f:
             self.kf = [e for e in json.load(f)["findings"] if e["property"] == prop]
-        os.makedirs(REPLAY, exist_ok=True)
+        if getattr(self.args, "no_evidence", False):
+            # trial runs (seeded changes, scratch trees) must not leave replay files among the committed evidence
+            import tempfile
+            self.replay_dir = tempfile.mkdtemp(prefix="verif-replay-%s-" % prop)
+        else:
+            self.replay_dir = REPLAY
+            os.makedirs(REPLAY, exist_ok=True)
+            for fn in os.listdir(REPLAY):            # this run's replay files replace the previous run's
+                if fn.startswith(prop + "_"):
+                    os.unlink(os.path.join(REPLAY, fn))
 
     # ------------------------------------------------------------ logging
     def log(self, *a):
@@ -129,7 +138,7 @@ class Check:
         return "violation"
 
     def _write_replay(self, full, key, what, replay, reproduced, known=None):
-        path = os.path.join(REPLAY, _slug(full + "--" + key) + ".json")
+        path = os.path.join(self.replay_dir, _slug(full + "--" + key) + ".json")
         doc = {"property": self.prop, "obligation": full, "failure_key": key, "what": what,
                "reproduced_natively": reproduced, "repo": self.repo.root}
         if known:
